@@ -13,4 +13,8 @@ for d in hcore hcrypto hbinance; do
   [ -d harness/cmd/$d ] || continue
   (cd harness && go build -tags verif -race -o ../bin/$d.race ./cmd/$d) || rc=1
 done
+# second harness module: mpc/ps linked with the dependency versions its own go.mod declares
+if [ -d harness/own/cmd/hpsown ]; then
+  (cd harness/own && go build -tags verif -o ../../bin/hpsown ./cmd/hpsown) || rc=1
+fi
 exit $rc
